@@ -60,6 +60,20 @@ package generator
 //@   ensures [C05,C19] nil-never-checked: v.isNillable ==> !rejects(emitted(out), sig1(v.fieldName, nil_ptr())) && !panics(emitted(out), sig1(v.fieldName, nil_ptr()))
 //@   ensures [C19] no-panic: forall x int :: !panics(emitted(out), sig1(v.fieldName, v.isNillable ? ptr_to(x) : x))
 
+// Outside the integer regime the value posts are known findings, but emitting
+// must still leave the validator and the schema's own numbers untouched (the
+// same validator object is emitted once per format: C17) and the text must parse.
+//@ func (*numericValidator).generate@int-anybound
+//@   props C17 C05 C01 C15
+//@   shape out = emitter
+//@   shape *v.exclusiveMinimum = anybool | anyfloat
+//@   shape *v.exclusiveMaximum = anybool | anyfloat
+//@   shape v.isNillable = true | false
+//@   shape v.roundToInt = true
+//@   assigns *out
+//@   ensures [C17] format-independent: independent_of(emitted(out), format)
+//@   ensures [C01] parses: parses(emitted(out)) && out.indent == old(out.indent)
+
 // ---- strings ---------------------------------------------------------------
 // A generated string value is gstr(bytes, characters, matches-the-pattern);
 // regexp.MatchString is the schema's notion of "matches" (assumed).
